@@ -12,10 +12,21 @@ META = dict(
                 'self, resize, push_back, at/[]/size) is proved against the heap invariant "buffer_ is a live separate block of buffer_size_>=1 '
                 'elements, size_<=buffer_size_" stated with is_fresh / was_freed (old block freed exactly when replaced, dtor frees once), plus '
                 'ctor..dtor bracket scenarios under --memory-leak-check / --pointer-check (leak, double free, use after free, out of bounds). '
-                'Seven genuine deviations from std are recorded as known findings and excluded by region.'),
+                'The NON-TRIVIAL specialisations (placement-new maybe<T>, either<L,R> with user-provided copy constructor / empty destructor) are '
+                'exercised with a tracking element type trk_t (user-provided ctors / dtor / copy assignment; namespace-scope counters of live '
+                'objects and of operations on raw or destroyed storage): construct / copy / maybe-to-maybe assignment in all four emptiness '
+                'combinations / self-assignment / value assignment / reset / end of life, postcondition = observation of the same program over '
+                'std::optional / std::variant (contents, live-object count, zero dead-object operations); and with utl::vector<size_t> as payload '
+                '(copy / assign / self-assign under pointer checks, end of life under the leak check). '
+                'Seven genuine deviations from std of static_vector / vector and ten of the non-trivial maybe / either specialisations '
+                '(payload never destroyed; assignment into raw storage) are recorded as known findings and excluded by region.'),
     level_note=('Trusted: clang AST, cxx2c rendering (incl. new: anonymous unions, CRTP base-to-derived casts, scalar placement new, scope-exit '
                 'destructor calls, malloc/free/memcpy passed to CBMC\'s models), CBMC 6.11 dfcc. Vector sizes are bounded by the precondition '
-                'n <= 2^16 elements and malloc is assumed to succeed. The by-value element type is size_t/int only (trivial T); '
+                'n <= 2^16 elements and malloc is assumed to succeed. Element types: size_t/int (trivial), the tracking struct trk_t and '
+                'utl::vector<size_t> (non-trivial; scenario wrappers over scalars, objects live inside the wrapper). New in the translator: '
+                'placement new of records with a user-provided constructor, mutable namespace-scope scalars of the instantiation TU; explicit '
+                'destructor calls x.~T() are ordinary member calls. The raw payload storage of an empty maybe is given the arbitrary content `junk` '
+                'by the wrapper (a parameter, so every content is covered), which also makes native replays deterministic; '
                 'the per-operation vector contracts assume the push_back argument does not alias the vector\'s own storage (the aliasing case '
                 'is a recorded finding). Induction over histories is the usual meta-argument from the per-operation contracts.'),
     trusted_base=[
@@ -26,7 +37,8 @@ META = dict(
         'Inv(new) of a vector is stated as "same block and capacity as before, or is_fresh(new block)"; that this re-establishes the is_fresh precondition of the next operation is the inductive meta-step',
     ],
     assumptions=[
-        'instantiations: static_vector<size_t,8>, array<size_t,4>, vector<size_t>, maybe<size_t>, either<size_t,int>, tuple/tuplev2<size_t,int,size_t>; -DNDEBUG, STL enabled',
+        'instantiations: static_vector<size_t,8>, array<size_t,4>, vector<size_t>, maybe<size_t>, either<size_t,int>, maybe<trk_t>, maybe<vector<size_t>>, either<trk_t,int>, tuple/tuplev2<size_t,int,size_t>; -DNDEBUG, STL enabled',
+        'trk_t (inst/c19.cpp) is alive while state == TRK_ALIVE; its counters trk_live / trk_bad are reset at the start of every scenario wrapper; expected counter values are those of the same wrapper over std::optional / std::variant',
         'utl::vector: sizes and capacities <= VEC_MAX = 2^16 elements (proofs also pass with 2^20 / 2^32; 2^16 keeps counterexample search on broken code fast) (so that sizeof(T)*n cannot wrap; plays the role of max_size()); malloc succeeds',
         'utl::vector per-operation invariant uses buffer_size_ >= 1, i.e. excludes the state created by vector(size_type 0) (known finding: leaked block)',
         'ghost g (observed position) and vg (its pre-state value) are bound in preconditions; ghost cells are functional definitions',
@@ -34,7 +46,9 @@ META = dict(
     ],
     not_covered=[
         'small_vector (either<static_vector,vector> switch) -- not extracted',
-        'non-trivial element types: maybe/either specialisations with placement-new of records and user-provided ~either(); only trivial T (size_t/int) is verified',
+        'non-trivial element types other than trk_t / utl::vector<size_t>; the third either specialisation (trivially destructible but not trivially copy-constructible alternatives, e.g. either<static_vector,..>); either<trk_t,int> copy construction from a LEFT source, maybe<T> assignments that change emptiness, value assignment into an empty maybe / a RIGHT either, reset of a valued maybe and every end of life of a held non-trivial object are known-finding regions (verified only outside them)',
+        'maybe<T>/either<L,R> with non-copy-assignable T (the `new(&left) T(other.left)` branches of operator= / copy constructor) -- trk_t and utl::vector are copy-assignable',
+        'moves: the utl containers have no move operations (copies are used); temporaries of maybe/either type are not used by the wrappers',
         'vector / maybe / either / tuple of element types other than size_t / int (double etc.)',
         'malloc failure (utl::vector has no error handling for a NULL block)',
         'begin()/end()/free-function size/begin/end of the containers, static_vector::get<I>, tuple sizes other than 3, tuple converting constructors',
@@ -48,6 +62,9 @@ SV = 'static_vector == std::vector up to capacity (refusal leaves contents uncha
 AR = 'utl::array == std::array'
 MB = 'utl::maybe == std::optional (trivial T)'
 EI = 'utl::either == std::variant (trivial alternatives)'
+MBV = 'utl::maybe<utl::vector> == std::optional<std::vector>: copies independent, self-assignment harmless, no use after free / double free / out-of-bounds access, payload released at end of life'
+E2 = 'utl::either == std::variant for a non-trivial alternative: active alternative and value, every alternative object constructed and destroyed exactly once, no operation on raw / destroyed storage'
+MBT = 'utl::maybe == std::optional for a non-trivial element type: contents, every payload constructed and destroyed exactly once, no operation on raw / destroyed storage'
 TP = 'utl::tuple / tuplev2 == std::tuple'
 VE = 'utl::vector == std::vector; copies independent, self-assignment harmless, no leak / double free / out-of-bounds access'
 HEAP = dict(extra=['--memory-leak-check'], gi_extra=['--no-malloc-may-fail'], timeout=900)
@@ -80,5 +97,13 @@ UNITS = [
     Unit('vecop.at', 'c19', 'nmtools::utl::vector::at[at__ul]', clause=VO, **HEAPOP),
     Unit('vecop.index', 'c19', 'nmtools::utl::vector::operator[][op_index__ul]', clause=VO, **HEAPOP),
     Unit('vecop.size', 'c19', 'nmtools::utl::vector::size', clause=VO, **HEAPOP),
+    # maybe<T> for a non-trivial T (placement-new specialisation): tracked element type, contents + live-object / dead-object counters
+    U('mbt.default', MBT), U('mbt.nothing', MBT), U('mbt.value', MBT), U('mbt.copy', MBT), U('mbt.assign', MBT),
+    U('mbt.self_assign', MBT), U('mbt.assign_value', MBT), U('mbt.assign_nothing', MBT), U('mbt.write', MBT), U('mbt.scope', MBT),
+    # maybe<utl::vector<size_t>>: heap payload (pointer checks; leak check only for the end-of-life unit)
+    U('mbv.copy', MBV, **HEAPOP), U('mbv.assign', MBV, **HEAPOP), U('mbv.self_assign', MBV, **HEAPOP), U('mbv.scope', MBV, **HEAP),
+    # either<T,int> for a non-trivial T (specialisation with user-provided copy constructor / empty destructor)
+    U('e2.default', E2), U('e2.left', E2), U('e2.right', E2), U('e2.copy', E2), U('e2.assign', E2), U('e2.self_assign', E2),
+    U('e2.assign_left', E2), U('e2.assign_right', E2), U('e2.scope', E2),
     U('tp.get', TP), U('tp.copy_get', TP), U('tp.default', TP), U('tp.write', TP), U('tp2.get', TP), U('tp2.copy_write', TP),
 ]
